@@ -39,12 +39,15 @@ func documents() {
 	for ki := range kinds {
 		for rep := 0; rep < per; rep++ {
 			for class := 0; class < 4; class++ {
+				if !e.Thorough && (ki+rep+class)%4 == 3 {
+					continue // quick tier: three of the four text classes per font kind and repetition
+				}
 				runDocument(docPlan{kinds: []int{ki}, version: versions[e.Rand.IntN(len(versions))], nStr: 1 + e.Rand.IntN(5), class: class}, "single")
 			}
 		}
 	}
 	// towards and beyond the 256-code limit of simple fonts
-	nWide := e.Pick(40, 600)
+	nWide := e.Pick(30, 600)
 	for i := 0; i < nWide; i++ {
 		ki := e.Rand.IntN(len(kinds))
 		for kinds[ki].composite && e.Rand.IntN(4) > 0 {
@@ -57,7 +60,7 @@ func documents() {
 		runDocument(docPlan{kinds: []int{ki}, version: []pdf.Version{pdf.V1_7, pdf.V2_0}[e.Rand.IntN(2)], nStr: 60, class: class}, "wide")
 	}
 	// several fonts per page
-	nMulti := e.Pick(180, 6000)
+	nMulti := e.Pick(130, 6000)
 	for i := 0; i < nMulti; i++ {
 		n := 2 + e.Rand.IntN(2)
 		var ks []int
